@@ -1220,6 +1220,12 @@ func mergeParagraphProperties(base, override *ParagraphProperties) *ParagraphPro
 		merged.OutlineLevel = base.OutlineLevel
 	}
 
+	if override.SnapToGrid != nil {
+		merged.SnapToGrid = override.SnapToGrid
+	} else if base.SnapToGrid != nil {
+		merged.SnapToGrid = base.SnapToGrid
+	}
+
 	return merged
 }
 
